@@ -80,6 +80,18 @@ def check_C09(c):
         jobs.append(('tr_dumps', dict(texts=c.rng.sample(pool, k), model=c.rng.choice(['default', 'amr']), indent=c.rng.choice([None, -1, 0, 2]),
                                       compact=c.rng.random() < 0.3)))
     jobs += _bigstreams(c)
+    # the file machine (MC_File): read-your-last-write on two paths; its histories replayed on real files
+    c.mc('MC_File', _q(c, 'MC_File_q.cfg', 'MC_File_t.cfg'), workers=8, heap='4g')
+    hists, res = tlc.export_cases('MC_File', cfg='MC_FileX.cfg', workers=4, heap='4g')
+    c.states += res['distinct']
+    c.transitions += res['states']
+    hists = [h for h in hists if any(e['op'] == 'load' for e in h['hist'])]
+    c.mc_runs.append(dict(module='MC_File (export of dump/load histories)', cfg='MC_FileX.cfg', distinct_states=res['distinct'],
+                          states_generated=res['states'], wall_s=round(res['wall'], 1), exported=len(hists)))
+    if c.tier == 'quick':
+        hists = c.rng.sample(hists, min(len(hists), 400))
+    for h in hists:
+        jobs.append(('tr_filehist', dict(hist=h['hist'], how=c.rng.choice(['path', 'path', 'Path', 'fileobj']))))
     traces = pmake(jobs, procs=12)
     c.judge('J_Stream', traces, 'stream', nontrivial=lambda t: (t['kind'] == 'stream' and len(t['outs'][0]['graphs']) >= 1) or
             (t['kind'] == 'dumps' and len(t['graphs']) >= 1))
